@@ -10,7 +10,7 @@ import random
 import re
 
 import vlib
-from vlib import Ctx, diff_suite
+from vlib import Ctx
 
 PROP = 'C11'
 
@@ -462,6 +462,36 @@ def family_program(kind, context, position):
 END_STMTS = '(WendStmt|NextStmt|LoopStmt|EndIfStmt|EndSubStmt|EndFunctionStmt|EndSelectStmt)'
 
 
+def peephole_check(items1, items2):
+    """level 2 = QvmCode.optimize applied to the level-1 list: the marker sequence
+    must be unchanged and no segment between two markers may gain an instruction"""
+    def segs(items):
+        marks, counts, n = [], [], 0
+        for it in items:
+            if it[0] == 0:
+                n += 1
+            else:
+                marks.append(it)
+                counts.append(n)
+                n = 0
+        counts.append(n)
+        return marks, counts
+    m1, c1 = segs(items1)
+    m2, c2 = segs(items2)
+    if m1 != m2:
+        return ('C11/peephole-changes-marker-sequence', {})
+    for j, (a, b) in enumerate(zip(c1, c2)):
+        if b > a:
+            return ('C11/peephole-moves-instruction-across-marker',
+                    {'segment': j, 'level1_count': a, 'level2_count': b})
+    return None
+
+
+def load_corpus():
+    corpus = vlib.run_impl('corpus.load', [None])[0]
+    return [c for c in corpus if 'src' in c]
+
+
 def check_tags(ctx, case, raw):
     """the statement behind each device interaction / trap is the one the
     generator put on that line"""
@@ -517,8 +547,12 @@ def main(tier, seed):
         'block) but not proved about qvm_codegen.py; pyparsing locations (loc_start/loc_end) are inside the '
         'correspondence only',
     ]
+    import time
+    tm = {}
+    t0 = time.time()
     ctx.prove()
     exe = ctx.model('DebugMap')
+    tm['build'] = round(time.time() - t0, 1)
     quick = tier == 'quick'
 
     # ---- A: collector + add_node + finalize on arbitrary streams (incl. malformed)
@@ -534,10 +568,9 @@ def main(tier, seed):
                     f'sizes, _empty_block, start/end of 2 statements, a block, a routine, an expression node: '
                     f'well nested AND malformed), plus the first {nwf} of a fixed family of 4000 random '
                     f'well-nested streams (4..31 items); non-trivial = distinct stream')
-    nA = diff_suite(ctx, 'collector', streams + extra, 'dbgmapfn.collector_case', exe,
-                    lambda c: [1, c], norm_collector,
-                    lambda c, ni, mo, raw: ('C11/collector-model-differs', False),
-                    key=lambda c: json.dumps(c), describe=lambda c: json.dumps(c))
+    suites = []        # (name, cases, worker kind, model job, normaliser, signature)
+    suites.append(('collector', streams + extra, 'collector', lambda c: [1, c], norm_collector,
+                   'C11/collector-model-differs'))
     ctx.bump('streams_malformed_or_wf_short', len(streams))
     ctx.bump('streams_wf_long', len(extra))
 
@@ -557,11 +590,8 @@ def main(tier, seed):
                        'stmts': [[10 + j, r[0], r[1]] for j, r in enumerate(st)]})
     ctx.rule.append(f'B: finalize on tables: <=2 statement records x 1..2 blocks x 0..2 empty markers, all '
                     f'ranges over offsets 0..3 ({len(allB)} tables), every {stride}th (phase = seed; quick 23, thorough 1)')
-    diff_suite(ctx, 'finalize', tables, 'dbgmapfn.finalize_case', exe,
-               lambda c: [4, c['empties'], c['blocks'], c['stmts']],
-               lambda c, raw: raw,
-               lambda c, ni, mo, raw: ('C11/finalize-model-differs', False),
-               key=lambda c: json.dumps(c), describe=lambda c: json.dumps(c))
+    suites.append(('finalize', tables, 'finalize', lambda c: [4, c['empties'], c['blocks'], c['stmts']],
+                   lambda c, raw: raw, 'C11/finalize-model-differs'))
 
     finds = []
     recsets = [[]] + [[r] for r in rngs] + [[r1, r2] for r1 in rngs for r2 in rngs]
@@ -581,10 +611,9 @@ def main(tier, seed):
         if isinstance(raw, dict) and 'exc' in raw:
             return ['exc', raw['exc']]
         return [1] if raw is None else [0, raw]
-    diff_suite(ctx, 'find_stmt', finds, 'dbgmapfn.find_case', exe,
-               lambda c: [2, c['stmts'], c['addr'], [] if c['call'] is None else [c['call']]],
-               norm_find, lambda c, ni, mo, raw: ('C11/find_stmt-model-differs', False),
-               key=lambda c: json.dumps(c), describe=lambda c: json.dumps(c))
+    suites.append(('find_stmt', finds, 'find',
+                   lambda c: [2, c['stmts'], c['addr'], [] if c['call'] is None else [c['call']]],
+                   norm_find, 'C11/find_stmt-model-differs'))
 
     texts = ['', 'a', 'ab\ncd\n', '\n\nx', 'PRINT 1: PRINT 2\nx = 1\n', 'a\r\nb']
     lcs = [{'text': t, 'offset': o} for t in texts for o in range(-1, len(t) + 2)]
@@ -592,15 +621,12 @@ def main(tier, seed):
 
     def norm_lc(c, raw):
         return [] if raw[0] is None else raw
-    diff_suite(ctx, 'linecol', lcs, 'dbgmapfn.linecol_case', exe,
-               lambda c: [3, c['text'], c['offset']], norm_lc,
-               lambda c, ni, mo, raw: ('C11/linecol-model-differs', False),
-               key=lambda c: json.dumps(c), describe=lambda c: json.dumps(c))
+    suites.append(('linecol', lcs, 'linecol', lambda c: [3, c['text'], c['offset']], norm_lc,
+                   'C11/linecol-model-differs'))
 
     # ---- E: the real compiler: corpus + kind x context x position + generated programs
     progs = []
-    corpus = vlib.run_impl('corpus.load', [None])[0]
-    corpus = [c for c in corpus if 'src' in c]
+    corpus = load_corpus()
     if quick:
         corpus = corpus[seed % 3::3]
     for c in corpus:
@@ -621,9 +647,9 @@ def main(tier, seed):
             m = re.search(r'(c% = a% \+ |c& = )(9\d{4})', f['src'])
             f['trap_tag'] = int(m.group(2)) if m else None
     if quick:
-        fam = fam[seed % 4::4]
+        fam = fam[seed % 12::12]
     progs += fam
-    ngen = 60 if quick else 600
+    ngen = 48 if quick else 600
     gen = []
     for i in range(ngen):
         rng = random.Random(f'c11-{i}')
@@ -643,12 +669,44 @@ def main(tier, seed):
             cases.append(dict(pr, level=level, max_ticks=20000))
     ctx.rule.append(f'E: {ncorpus} corpus programs{" (every 3rd, phase = seed)" if quick else ""}, '
                     f'{len(fam)} programs of the family statement-kind ({len(KINDS)}) x context '
-                    f'({len(CONTEXTS)}) x position (4){" (every 4th)" if quick else ""}, '
+                    f'({len(CONTEXTS)}) x position (4){" (every 12th, phase = seed)" if quick else ""}, '
                     f'{ngen} generated programs (fixed family, index-seeded), each at levels 0,1,2 with -g; '
                     f'non-trivial = distinct (source, level) that compiled')
-    raws = vlib.run_impl('dbgmapfn.compile_case',
-                         [{'src': c['src'], 'level': c['level'], 'run': c['run'], 'script': c['script'],
-                           'max_ticks': c['max_ticks']} for c in cases])
+    # one dispatch for everything that runs repository code (worker start-up =
+    # importing the compiler is the dominant fixed cost), interleaved so that
+    # the 16 workers get similar loads
+    allc = []
+    for name, cs, kind, _, _, _ in suites:
+        allc += [{'k': kind, 'case': c} for c in cs]
+    allc += [{'k': 'compile', 'case': {'src': c['src'], 'level': c['level'], 'run': c['run'],
+                                       'script': c['script'], 'max_ticks': c['max_ticks']}}
+             for c in cases]
+    order = sorted(range(len(allc)), key=lambda j: (j % vlib.NPROC, j))
+    res = vlib.run_impl('dbgmapfn.any_case', [allc[j] for j in order])
+    allr = [None] * len(allc)
+    for j, r in zip(order, res):
+        allr[j] = r
+    pos = 0
+    for name, cs, kind, model_job, norm, sig in suites:
+        rs = allr[pos:pos + len(cs)]
+        pos += len(cs)
+        mouts = vlib.run_model(exe, [model_job(c) for c in cs])
+        for c, raw, mo in zip(cs, rs, mouts):
+            if isinstance(raw, dict) and raw.get('harness'):
+                ctx.broken.append(f'correspondence {name}: implementation worker failed: '
+                                  f'{raw.get("stderr", "")[-300:]}')
+                break
+            if isinstance(mo, str):
+                ctx.broken.append(f'correspondence {name}: model driver failed ({mo}) on {c!r}')
+                break
+            ni = norm(c, raw)
+            if ni != mo:
+                ctx.report(sig, {'suite': name, 'case': c, 'impl': ni, 'model': mo}, False)
+        ctx.count(name, len(cs), {json.dumps(c) for c in cs})
+        if cs:
+            ctx.sample({'suite': name, 'case': json.dumps(cs[len(cs) // 2])[:300]})
+    tm['constructed_suites'] = round(time.time() - t0, 1)
+    raws = allr[pos:]
     jobs = []
     idx = []
     for i, (c, raw) in enumerate(zip(cases, raws)):
@@ -667,7 +725,10 @@ def main(tier, seed):
             continue
         jobs.append([1, raw['items']])
         idx.append(i)
+    tm['compile_and_oracle'] = round(time.time() - t0, 1)
     mouts = vlib.run_model(exe, jobs)
+    tm['model_on_compiled'] = round(time.time() - t0, 1)
+    ctx.extra['phase_seconds_cumulative'] = tm
     nE = 0
     keys = set()
     kinds_seen = set()
@@ -696,6 +757,19 @@ def main(tier, seed):
             for o in raw['obs']:
                 if o['line'] is None:
                     pass        # already reported by the oracle as io-without-statement
+    # the peephole pass (level 2 = optimize applied to the level-1 list) must not
+    # move an instruction across a marker: same marker sequence, and no segment
+    # between two markers gains an instruction
+    npeep = 0
+    for k in range(0, len(cases), 3):
+        r1, r2 = raws[k + 1], raws[k + 2]
+        if not (isinstance(r1, dict) and isinstance(r2, dict) and 'items' in r1 and 'items' in r2):
+            continue
+        npeep += 1
+        pc = peephole_check(r1['items'], r2['items'])
+        if pc is not None:
+            ctx.report(pc[0], dict(pc[1], src=cases[k]['src'], level=2, origin=cases[k]['origin']), True)
+    ctx.bump('E_peephole_marker_checks', npeep)
     ctx.count('compiled', nE, keys)
     ctx.bump('E_tag_checks', ntags)
     ctx.extra['statement_kinds_seen'] = sorted(kinds_seen)
@@ -708,19 +782,40 @@ def main(tier, seed):
         'runs on the real artefacts independently of the model')
 
 
+class _Rec:
+    """collects signatures like Ctx.report does, for --replay"""
+
+    def __init__(self):
+        self.sigs = []
+
+    def report(self, sig, detail, found=True):
+        self.sigs.append(sig)
+
+
 def replay(path):
     d = json.load(open(path))
     first = d.get('first') or {}
     src = first.get('src')
+    sig = d.get('signature')
     if src is None:
         print(json.dumps(d, indent=1)[:4000])
         return 0
-    raw = vlib.run_impl('dbgmapfn.compile_case',
-                        [{'src': src, 'level': first.get('level', 0), 'run': True,
-                          'script': ['7'] * 40, 'max_ticks': 20000}])[0]
+    level = first.get('level', 0)
+    mk = lambda lv: {'src': src, 'level': lv, 'run': True, 'script': ['7'] * 40, 'max_ticks': 20000}
+    raws = vlib.run_impl('dbgmapfn.compile_case', [mk(level), mk(1), mk(2)])
+    raw = raws[0]
     print(src)
-    print(json.dumps({k: raw.get(k) for k in ('fails', 'trap', 'obs')}, indent=1)[:6000])
-    sig = d.get('signature')
-    hit = any(f['sig'] == sig for f in raw.get('fails', []))
+    print(json.dumps({k: raw.get(k) for k in ('fails', 'trap', 'obs', 'skip', 'exc')}, indent=1)[:6000])
+    rec = _Rec()
+    for f in raw.get('fails', []):
+        rec.report(f['sig'], f)
+    if 'obs' in raw:
+        tags = tags_of(src)
+        check_tags(rec, {'src': src, 'level': level, 'trap_tag': max(tags) if tags else None}, raw)
+    if all('items' in r for r in raws[1:]):
+        pc = peephole_check(raws[1]['items'], raws[2]['items'])
+        if pc:
+            rec.report(pc[0], pc[1])
+    hit = sig in rec.sigs
     print(f'signature {sig} reproduces: {hit}')
     return 1 if hit else 0
